@@ -165,6 +165,9 @@ def run_case(case, stats):
         else:
             cs = gen.make_cs(cfg, render(fields))
         R = cs.R
+        # reference parses are done by a second cstruct object with the same configuration and definitions, so that they
+        # cannot disturb state that the history under test leaves on the type objects
+        cs_ref = gen.make_cs(cfg, render(fields))
     except Exception:
         raise Discard("load_fail")
     w = W[cfg["pointer"]]
@@ -253,7 +256,7 @@ def run_case(case, stats):
         if addr == 0:
             exp = ("exc", "NullPointerDereference")
         else:
-            exp = _target_ref(cs, f["t"], depth, image, addr)
+            exp = _target_ref(cs_ref, f["t"], depth, image, addr)
         stats.count("evaluations")
         if got[0] == "exc":
             stats.count("fault.deref_raised_" + got[1])
@@ -348,7 +351,7 @@ def run_case(case, stats):
                     check_deref(q, f, f["depth"], a + d, f"({sl['f']}[{sl['j']}]{d:+d})")
             elif k == "attr":
                 if f["t"] == "T" and f["depth"] == 1 and a != 0:
-                    exp = _target_ref(cs, "T", 1, image, a)
+                    exp = _target_ref(cs_ref, "T", 1, image, a)
                     before = stream.tell()
                     try:
                         got = ("val", int(p.a), int(p.b))
@@ -365,12 +368,12 @@ def run_case(case, stats):
                         raise Violation("dereference", "attribute_through_pointer", f"target unreadable ({exp}) but p.a gave {got}")
             elif k == "str":
                 if a != 0 and f["depth"] == 1:
-                    exp = _target_ref(cs, f["t"], f["depth"], image, a)
+                    exp = _target_ref(cs_ref, f["t"], f["depth"], image, a)
                     try:
                         got = str(p)
                         ok = exp[0] != "exc"
                         if ok and f["depth"] == 1:
-                            want = str(cs.char[None](image[a:]) if f["t"] == "char" else cs.resolve(f["t"])(image[a:]))
+                            want = str(cs_ref.char[None](image[a:]) if f["t"] == "char" else cs_ref.resolve(f["t"])(image[a:]))
                             if got != want:
                                 raise Violation("dereference", "str_of_pointer", f"str(p) = {got!r}, str(target) = {want!r}")
                     except Violation:
